@@ -1,10 +1,123 @@
 import Model.Common.Proto
-open Btc
+import Model.Common.HashProto
+import Model.C10.Engine
+import Generated.Spend
+open Btc Btc.Sighash Btc.Spend
 
-/-- line protocol of property C10: see harness/c10.py -/
-def handle : List String → String
-  -- one line per generated module this driver serves, e.g.
-  -- | "gen" :: "VarInt" :: fn :: args => (Gen.VarInt.dispatch fn args).getD "bad-op"
-  | _ => "bad-op"
+/-!
+line protocol of property C10 (see harness/c10.py)
+
+tokens: bytes are hex (`_` = empty); integers decimal; an empty list / absent value is `.`
+  tx    = `version;locktime;in,in,…;out,out,…`   in = `txid:vout:scriptSig:sequence:wit/wit/…`  out = `value:spk`
+  outs  = `out,out,…`
+ops
+  fin <spk|.> <redeem> <wscript> <pk:sig,…|.>                       `_finalized_input`
+  fintap <sht|.> <keysig> <keydata:sig,…|.> <cb:script:ver,…|.> <vk 0|1> <vl 0|1>   `_finalized_taproot_input`
+  sigmsg <spk> <redeem> <wscript> <leafhash> <ht> <i> <tx> <outs>   the digest the signer signs (C09 spec digests)
+  verify <flags> <i> <tx> <outs>                                    `Core.verifyScript` with the composed checker
+  verdict <flags> <i> <tx> <outs>                                   the same, `ok` / `rej` only
+answers: `ok …` / `err value` / `err <ScriptError>` / `none`
+-/
+
+def optTok (f : String → Option α) (s : String) : Option (Option α) :=
+  if s == "." then some none else (f s).map some
+
+def listTok (sep : String) (f : String → Option α) (s : String) : Option (List α) :=
+  if s == "." then some [] else (s.splitOn sep).mapM f
+
+def parseOut (s : String) : Option TxOut :=
+  match s.splitOn ":" with
+  | [v, spk] => do pure ⟨← parseInt? v, ← fromHex? spk⟩
+  | _ => none
+
+def parseIn (s : String) : Option (TxIn × List Bytes) :=
+  match s.splitOn ":" with
+  | [txid, vout, ss, seq, wit] => do
+    pure (⟨⟨← fromHex? txid, ← parseInt? vout⟩, ← fromHex? ss, ← parseInt? seq⟩, ← listTok "/" fromHex? wit)
+  | _ => none
+
+def parseTx (s : String) : Option (Tx × List (List Bytes)) :=
+  match s.splitOn ";" with
+  | [v, l, ins, outs] => do
+    let is ← listTok "," parseIn ins
+    let os ← listTok "," parseOut outs
+    pure (⟨← parseInt? v, is.map (·.1), os, ← parseInt? l⟩, is.map (·.2))
+  | _ => none
+
+def parseOuts : String → Option (List TxOut) := listTok "," parseOut
+
+def pair (s : String) : Option (Bytes × Bytes) :=
+  match s.splitOn ":" with
+  | [a, b] => do pure (← fromHex? a, ← fromHex? b)
+  | _ => none
+
+def leafTok (s : String) : Option (Bytes × Bytes × Nat) :=
+  match s.splitOn ":" with
+  | [a, b, v] => do pure (← fromHex? a, ← fromHex? b, ← v.toNat?)
+  | _ => none
+
+def secp : GroupOps EC.Point := EC.ops EC.secp256k1
+
+def parsePub (k : Bytes) : Option EC.Point :=
+  match Taproot.pointFromOctets secp k with
+  | .ok P => some P
+  | .error _ => none
+
+def validKey (k : Bytes) : Bool := (parsePub k).isSome
+
+def bip340 : Schnorr.Params :=
+  { pSize := 32, nSize := 32, nlen := 256, hfLen := 32, TH := taggedHash }
+
+def crypto : Crypto EC.Point :=
+  { o := secp, S := sha256, ripemd160 := ripemd160, sha1 := sha1, parsePub := parsePub, prm := bip340 }
+
+def witTok (w : List Bytes) : String := if w.isEmpty then "." else "/".intercalate (w.map toHex)
+
+def renderFin (r : Except Spend.Err (Bytes × List Bytes)) : String :=
+  match r with
+  | .ok (ss, w) => s!"ok {toHex ss} {witTok w}"
+  | .error _ => "err value"
+
+def errName (e : Script.Core.ScriptError) : String :=
+  ((reprStr e).splitOn " ").headD "" |>.splitOn "." |>.getLast? |>.getD "?"
+
+def handleC10 : List String → Option String
+  | ["fin", spk, redeem, ws, sigs] => do
+    let spk ← optTok fromHex? spk; let redeem ← fromHex? redeem; let ws ← fromHex? ws
+    let sigs ← listTok "," pair sigs
+    pure (renderFin (finalizedInput validKey ⟨spk, redeem, ws, sigs⟩))
+  | ["fintap", sht, ks, ss, ls, vk, vl] => do
+    let sht ← optTok String.toNat? sht; let ks ← fromHex? ks
+    let ss ← listTok "," pair ss; let ls ← listTok "," leafTok ls
+    pure (renderFin (finalizedTaproot (fun v s => Taproot.leafHash taggedHash v s)
+      (fun _ _ => vk == "1") (fun _ _ _ _ => vl == "1") ⟨sht, ks, ss, ls⟩))
+  | ["sigmsg", spk, redeem, ws, lh, ht, i, tx, outs] => do
+    let spk ← fromHex? spk; let redeem ← fromHex? redeem; let ws ← fromHex? ws; let lh ← fromHex? lh
+    let ht ← ht.toNat?; let i ← i.toNat?; let (tx, _) ← parseTx tx; let outs ← parseOuts outs
+    if isP2tr spk then
+      pure (if bip341Defined tx i outs ht then "ok " ++ toHex (taprootDigest sha256 tx i outs ht lh) else "none")
+    else
+      pure <| match ecdsaDigest hash256 ⟨some spk, redeem, ws, []⟩ (outs.getD i blankOut).value tx i ht with
+        | some d => "ok " ++ toHex d
+        | none => "none"
+  | ["verify", flags, i, tx, outs] => do
+    let flags ← flags.toNat?; let i ← i.toNat?; let (tx, wits) ← parseTx tx; let outs ← parseOuts outs
+    pure <| match verifyInput crypto flags tx outs i (wits.getD i []) with
+      | .ok _ => "ok"
+      | .error e => "err " ++ errName e
+  | ["verdict", flags, i, tx, outs] => do
+    let flags ← flags.toNat?; let i ← i.toNat?; let (tx, wits) ← parseTx tx; let outs ← parseOuts outs
+    pure <| match verifyInput crypto flags tx outs i (wits.getD i []) with
+      | .ok _ => "ok"
+      | .error _ => "rej"
+  | _ => none
+
+def handle (toks : List String) : String :=
+  match toks with
+  | "gen" :: "Spend" :: fn :: args => (Gen.Spend.dispatch fn args).getD "bad-op"
+  | _ =>
+    match hashOp toks with
+    | some r => r
+    | none => (handleC10 toks).getD "bad-op"
 
 def main : IO Unit := runLoop handle
